@@ -25,12 +25,15 @@ HasEmptyAnyT(x) == \E y \in SubSchemas(x) : y.t = "any" /\ IsSome(y.types) /\ Ge
 HasBodyList(x) == \E y \in SubSchemas(x) : y.t = "list" /\ IsSome(y.elems) /\ ListForm(Get(y.elems)) = "body"
 
 SigAnyEmpty(e) == IF e.rep /\ e.exc = "" /\ HasEmptyAnyT(Get(e.r)) THEN "substitute.any_left_without_alternatives" ELSE ""
+MalformedResult(e) == e.exc = "" /\ e.rep /\ Malformed(Get(e.r))
 
 VerdictC12(e) ==
   IF e.exc # "" /\ e.exc # "SubstitutionError"
   THEN "FAIL:exception_type:" \o
        (IF e.exc = "AttributeError" /\ HasBodyList(e.s) THEN "substitute.contains_list_falls_through" ELSE "")
   ELSE IF e.exc # "" THEN "OK"
+  ELSE IF MalformedResult(e)
+       THEN "FAIL:result_holds_the_placeholder_where_the_DSL_allows_none:substitute.placeholder_where_nothing_is_declared"
   ELSE IF \E j \in DOMAIN e.gens : e.gens[j].exc # "" /\ ~(e.rep /\ KnownGenSig(Get(e.r)))
        THEN "FAIL:result_cannot_be_generated_from:" \o SigAnyEmpty(e)
   ELSE IF \E j \in DOMAIN e.gens : e.gens[j].exc = "" /\ ~e.gens[j].vok /\ ~(e.rep /\ KnownGenSig(Get(e.r)))
@@ -45,6 +48,7 @@ VerdictC12(e) ==
 
 VerdictC04(e) ==
   IF e.exc # "" THEN "SKIP:substitution_refused"
+  ELSE IF MalformedResult(e) THEN "SKIP:malformed_result_is_C12s_subject"
   ELSE IF ~IsPlain(e.v) THEN "SKIP:value_not_plain"
   ELSE IF e.conf_sv /\ ~e.conf_rv THEN "FAIL:result_rejects_the_conforming_value:" \o SigAnyEmpty(e)
   ELSE IF \E j \in DOMAIN e.gens : e.gens[j].exc = "" /\ e.gens[j].rep /\ e.gens[j].vok
@@ -60,6 +64,7 @@ VerdictC04(e) ==
 
 VerdictC05(e) ==
   IF e.exc # "" THEN "SKIP:substitution_refused"
+  ELSE IF MalformedResult(e) THEN "SKIP:malformed_result_is_C12s_subject"
   ELSE IF ~IsPlain(e.v) THEN "SKIP:value_not_plain"
   ELSE IF \E j \in DOMAIN e.probes : e.probes[j].ok_r /\ ~e.probes[j].ok_s
        THEN "FAIL:result_accepts_value_the_original_rejects:"
